@@ -129,7 +129,8 @@ theorem month_length (y : Int) (m : Nat) (h1 : 1 ≤ m) (h12 : m ≤ 12) :
 
 /-! ## the year of a day -/
 
-/-- `yearFromTime` inverts "days before the year": every day of every year `y ≥ 0` (no upper bound) maps back to `y`.
+/-- `yearFromTime` inverts "days before the year": every day of every year `y ≥ 0` maps back to `y` (no upper bound in the
+`Int` model; the C `int` arithmetic is the same up to year 5 879 609, see `int_range_of_the_model`).
 Years 1..9999 of the property are the instance `1 ≤ y ≤ 9999`. -/
 theorem year_of_day (y k : Int) (hy : 0 ≤ y) (hk0 : 0 ≤ k) (hk : k < Cal.yearLen y) :
     yearFromDay (timeFromYearAsDays y + k) = y := by
@@ -151,6 +152,13 @@ theorem day_in_its_year (day : Int) (h : -719528 ≤ day) :
   have h1 := tfy_eq_start (yearFromDay day)
   have h2 := tfy_eq_start (yearFromDay day + 1)
   omega
+
+/-- where the unbounded-`Int` model is the C code: `int d = day + 719528` of `yearFromTime` stays below 2^31 for every day
+of the years 0..5 879 609, and `365*((y)-1970)` of `timeFromYearAsDays` for the years up to 5 885 486 (`construct` rejects
+years below −100000); years 1..9999 of the property are far inside -/
+theorem int_range_of_the_model :
+    timeFromYearAsDays 5879610 + 719528 ≤ 2147483647 ∧ 2147483647 < timeFromYearAsDays 5879611 + 719528 ∧
+    365 * (5885486 - 1970) ≤ (2147483647 : Int) ∧ (2147483647 : Int) < 365 * (5885487 - 1970) := by decide
 
 example : yearFromDay (timeFromYearAsDays 2000 + 365) = 2000 := by decide
 example : yearFromDay (timeFromYearAsDays 1900 + 364) = 1900 ∧ yearFromDay (timeFromYearAsDays 1900 + 365) = 1901 := by decide
